@@ -3133,6 +3133,40 @@ theorem canResume_sound_on_contract (v : Variant) (hv : v.fixDefrag = true) (hat
     rw [this]; exact hfr
   exact canResume_sound c seq pos w hinv hw hfix hnd hres p h1 h2
 
+/-- **Resume on a sliding-window cache, end to end and without hypotheses on the state** (repaired tree).
+    Along every history that keeps the contract (batches bring new, distinct, bounded positions for their
+    sequences; removals go to the end), if `CanResume(seq, pos)` approves, the sequence is cut back with
+    `Remove(seq, pos, MaxInt32)` and the next accepted batch contains `(seq, pos)`, then that token is shown an
+    entry at every position `p` of its window, `max 0 (pos − W) ≤ p < pos`. -/
+theorem approved_resume_on_contract (v : Variant) (hv : v.fixDefrag = true) (hat : v.atomicRemove = true)
+    (hfr : v.fixResume = true) (w : Int) (maxSeq capacity maxBatch cachePad batchPad : Nat) (hs : Bool) (ops : List HOp)
+    (hsz : (Causal.init v (some w) maxSeq capacity maxBatch cachePad batchPad hs).cells.length ≤ maxInt)
+    (hc : ContractRun (some w) (Causal.init v (some w) maxSeq capacity maxBatch cachePad batchPad hs) [] ops)
+    (hbd : ∀ op ∈ ops, BoundedOp op)
+    (seq : Nat) (pos : Int) (b : List Tok) (ids : List Nat) (hids : ids.length = b.length) (ht : (⟨seq, pos⟩ : Tok) ∈ b) :
+    let c := ops.foldl stepH (Causal.init v (some w) maxSeq capacity maxBatch cachePad batchPad hs)
+    canResume c seq pos = true → (startForward (removeV c seq pos maxInt32).1 b).2 = .ok →
+    ∀ p, max 0 (pos - w) ≤ p → p < pos →
+      ∃ k ∈ (exposedEntries (put (startForward (removeV c seq pos maxInt32).1 b).1 ids) ⟨seq, pos⟩).map key, k.1 = p := by
+  intro c hres hok p h1 h2
+  have hwf := contractRun_wf _ _ _ _ hc
+  have hinv := inv_run _ ops (inv_init v (some w) maxSeq capacity maxBatch cachePad batchPad hs hsz)
+  have hperm := refines_run_total (Causal.init v (some w) maxSeq capacity maxBatch cachePad batchPad hs) ops []
+    (by rw [abs_init]) (inv_init v (some w) maxSeq capacity maxBatch cachePad batchPad hs hsz) hv hat
+    (rowsFresh_init v (some w) maxSeq capacity maxBatch cachePad batchPad hs)
+    (freshEmpty_init v (some w) maxSeq capacity maxBatch cachePad batchPad hs) hwf
+  have hnd0 := nodupPos_runT (some w) (Causal.init v (some w) maxSeq capacity maxBatch cachePad batchPad hs) [] ops
+    (fun q => by simp [seqPositions]) hc
+  have hnd : (seqPositions (abs c) seq).Nodup := by
+    have hp : (seqPositions (abs c) seq).Perm (seqPositions (runT (some w) _ [] ops) seq) := (hperm.filter _).map _
+    exact hp.nodup_iff.mpr (hnd0 seq)
+  have hcv : c.v = v := (run_v _ ops).trans rfl
+  have hw : c.window = some w := (run_window _ ops).trans rfl
+  have hpb := posBound_run v hv hat (some w) maxSeq capacity maxBatch cachePad batchPad hs ops hsz hwf hbd
+  have hr := rowsFresh_run _ ops (rowsFresh_init v (some w) maxSeq capacity maxBatch cachePad batchPad hs)
+  exact approved_resume_sees_complete_window c seq pos w hinv hw (by rw [hcv]; exact hv) (by rw [hcv]; exact hfr) hr hpb hnd hres
+    b ids hids ht hok p h1 h2
+
 /-! ### Witnesses of the defects the model shares with the code -/
 
 def fwd (c : Cache) (b : List (Tok × Nat)) : Cache :=
@@ -3321,6 +3355,9 @@ theorem window_exact_nonvacuous :
 instance (s : Spec) (op : HOp) : Decidable (OnContract s op) := by
   cases op <;> unfold OnContract <;> infer_instance
 
+instance (op : HOp) : Decidable (BoundedOp op) := by
+  cases op <;> unfold BoundedOp <;> infer_instance
+
 instance (op : HOp) : Decidable (WellFormed op) := by
   cases op <;> unfold WellFormed <;> infer_instance
 
@@ -3337,7 +3374,8 @@ theorem canResume_contract_nonvacuous :
     let c0 := Causal.init { fixDefrag := true, fixResume := true, atomicRemove := true } (some 2) 2 16 4 1 1 true
     let ops := [HOp.fwd [⟨0, 0⟩] [1], .fwd [⟨0, 1⟩] [2], .fwd [⟨0, 2⟩] [3], .fwd [⟨0, 3⟩] [4], .fwd [⟨0, 4⟩] [5],
       .cp 0 1 4, .rm 1 3 maxInt32, .rm 0 4 maxInt32]
-    ContractRun (some 2) c0 [] ops ∧ canResume (ops.foldl stepH c0) 0 4 = true ∧
+    ContractRun (some 2) c0 [] ops ∧ (∀ op ∈ ops, BoundedOp op) ∧ canResume (ops.foldl stepH c0) 0 4 = true ∧
+    (startForward (removeV (ops.foldl stepH c0) 0 4 maxInt32).1 [⟨0, 4⟩]).2 = .ok ∧
     canResume (ops.foldl stepH c0) 1 3 = false := by decide
 
 /-- non-vacuity of `approved_resume_sees_complete_window`: window 2, positions 0..4 stored one by one; resuming at 4
